@@ -13,6 +13,8 @@
 #include <stdlib.h>
 #include <string.h>
 #include <unistd.h>
+#include <dlfcn.h>
+#include <dirent.h>
 #include "hx.h"
 #include "twin.h"
 #include "wasi.h"
@@ -61,7 +63,12 @@ static U32 use(const char* c, U32 x, int ns, char* det, size_t cap) {
     U64 rd = tw_rights(1);
     det[0] = 0;
     memset(hx_mem.data + RES, 0xAA, 16);
-    if (!strcmp(c, "fd_write") || !strcmp(c, "fd_pwrite")) {
+    /* the same four calls with an EMPTY iovec array: nothing to transfer, but the descriptor must be valid all the same */
+    if (!strcmp(c, "fd_write0")) { e = NS(ns, fd_write)(I, x, IOV, 0, RES); if (!e) snprintf(det, cap, "nw=%u", hx_u32(RES)); }
+    else if (!strcmp(c, "fd_pwrite0")) { e = NS(ns, fd_pwrite)(I, x, IOV, 0, 0, RES); if (!e) snprintf(det, cap, "nw=%u", hx_u32(RES)); }
+    else if (!strcmp(c, "fd_read0")) { e = NS(ns, fd_read)(I, x, IOV, 0, RES); if (!e) snprintf(det, cap, "nr=%u", hx_u32(RES)); }
+    else if (!strcmp(c, "fd_pread0")) { e = NS(ns, fd_pread)(I, x, IOV, 0, 0, RES); if (!e) snprintf(det, cap, "nr=%u", hx_u32(RES)); }
+    else if (!strcmp(c, "fd_write") || !strcmp(c, "fd_pwrite")) {
         int std = (x == 1 || x == 2);
         iov3();
         if (std) { fflush(hx_out); dup2(hostPipeW[x], x); }
@@ -116,6 +123,7 @@ static U32 use(const char* c, U32 x, int ns, char* det, size_t cap) {
     return e;
 }
 
+static int failNextClose;
 static void run(char* history) {
     char* ops[16];
     int n = hx_split(history, ' ', ops, 16), i;
@@ -144,6 +152,11 @@ static void run(char* history) {
             if (!e) snprintf(det, sizeof det, "fd=%u", hx_u32(RES));
         } else if (!strcmp(f[0], "c") && nf == 3) {
             e = NS(atoi(f[2]), fd_close)(I, (U32)strtoul(f[1], 0, 10));
+        } else if (!strcmp(f[0], "cf") && nf == 3) {
+            name = "fd_close";
+            failNextClose = 1;
+            e = NS(atoi(f[2]), fd_close)(I, (U32)strtoul(f[1], 0, 10));
+            failNextClose = 0;
         } else if (!strcmp(f[0], "u") && nf == 4) {
             name = f[1];
             e = use(f[1], (U32)strtoul(f[2], 0, 10), atoi(f[3]), det, sizeof det);
@@ -164,6 +177,25 @@ static void run(char* history) {
             fflush(hx_out);
         }
     }
+}
+
+/* environment answer owned by the harness: the host's close()/closedir() can FAIL (EIO after a deferred write error, EINTR).  As on Linux the
+ * host descriptor is released all the same.  Armed by the "cf" operation for the next close of a guest descriptor. */
+int close(int fd) {
+    static int (*real)(int);
+    int r;
+    if (!real) real = (int (*)(int))dlsym(RTLD_NEXT, "close");
+    r = real(fd);
+    if (failNextClose) { failNextClose = 0; errno = EIO; return -1; }
+    return r;
+}
+int closedir(DIR* d) {
+    static int (*real)(DIR*);
+    int r;
+    if (!real) real = (int (*)(DIR*))dlsym(RTLD_NEXT, "closedir");
+    r = real(d);
+    if (failNextClose) { failNextClose = 0; errno = EIO; return -1; }
+    return r;
 }
 
 int main(void) { return hx_serve(run); }
